@@ -187,6 +187,11 @@ var (
 	errType = reflect.TypeOf((*error)(nil)).Elem()
 )
 
+// runtimeDirectives: the (lower-cased) Go names of the generated DirectiveRoot's fields, i.e. the directives that have a
+// runtime implementation; a declared directive without one is skip_runtime (built-in, or configured so - the federation
+// plugin does that for @key, @shareable, ...). nil until Bind ran.
+var runtimeDirectives map[string]bool
+
 // Bind fills every func-typed field of the stub (stubgen's `Stub`) and of the DirectiveRoot.
 func (u *U) Bind(stub any, directives any, complexity any) {
 	sv := reflect.ValueOf(stub).Elem()
@@ -210,6 +215,7 @@ func (u *U) Bind(stub any, directives any, complexity any) {
 		}
 	}
 	dv := reflect.ValueOf(directives).Elem()
+	runtimeDirectives = map[string]bool{}
 	for i := 0; i < dv.NumField(); i++ {
 		f := dv.Field(i)
 		if f.Kind() != reflect.Func {
@@ -217,6 +223,7 @@ func (u *U) Bind(stub any, directives any, complexity any) {
 		}
 		ft := f.Type()
 		goName := dv.Type().Field(i).Name
+		runtimeDirectives[strings.ToLower(goName)] = true
 		f.Set(reflect.MakeFunc(ft, func(args []reflect.Value) []reflect.Value {
 			ctx := args[0].Interface().(context.Context)
 			name := goName
